@@ -259,6 +259,8 @@ def run(ctx):
     ctx.rule("R1", "panic-site reachability: no panic site reachable from a public Result-returning API except automatically discharged idioms and the frozen reasoned table")
     f = ctx.facts("default")
     ctx.run_rule("R1", lambda c: analyse(c, f, "R1"))
+    from . import controls
+    ctx.run_rule("R1", lambda c: controls.control_panics(c, "R1"))
     if ctx.tier == "thorough":
         for cfgname in ("plain", "nightlyproc", "push"):
             g = ctx.facts(cfgname)
